@@ -221,6 +221,32 @@ func pickSize(rng *rand.Rand) int {
 
 var pathPool = []string{"a.bin", "b.bin", "c.dat", "data/d.bin", "data/e.bin", "data/deep/f.bin", "lib/g.so", "lib/h.so", "z.txt", "bin/tool", "bin/other", "res/x/1", "res/x/2", "res/y/3"}
 
+var oddNames = []string{"docs/README", "docs/readme", "Case.bin", "case.bin", "..cache", "..data/inner.bin", ".../three-dots.bin", ".hidden",
+	"a..b", "sp ace/fi le.bin", "comma,name.bin", "\u00fcn\u00ef/c\u00f6d\u00e9.bin", "trailing-dot.", "-dash"}
+
+func isOddName(p string) bool {
+	for _, n := range oddNames {
+		if n == p {
+			return true
+		}
+	}
+	return false
+}
+
+// oddNamesTree adds entries with unusual but valid names: case-only differences between two paths, names starting
+// with one, two or three dots, "..", spaces, commas, non-ASCII. Contents are non-empty and pairwise different.
+func oddNamesTree(t *tree, rng *rand.Rand) {
+	for _, n := range oddNames {
+		if _, ok := t.Files[n]; !ok && rng.Intn(4) > 0 {
+			t.Files[n] = randBytes(rng, 1+rng.Intn(BS+BS/2))
+		}
+	}
+	t.Dirs["..empty-dir"] = true
+	if _, ok := t.Files["..data/inner.bin"]; ok {
+		t.Symlinks["..current"] = "..data"
+	}
+}
+
 // genPair returns an (old,new) pair and a description of the relations it contains.
 // big=true allows one file beyond 4 MiB (data-op splitting inside a real patch).
 func genPair(rng *rand.Rand, k int, big bool) (old, new *tree, desc string) {
@@ -428,6 +454,17 @@ func genPair(rng *rand.Rand, k int, big bool) (old, new *tree, desc string) {
 	case 3:
 		new.Symlinks["data/link"] = "../a.bin"
 		tag("symlink-added")
+	}
+	// names: valid names that code treating a path as anything else than an opaque string gets wrong
+	if rng.Intn(4) == 0 {
+		oddNamesTree(old, rng)
+		for p, c := range old.Files {
+			if isOddName(p) && rng.Intn(3) > 0 {
+				new.Files[p] = c
+			}
+		}
+		oddNamesTree(new, rng)
+		tag("odd-names")
 	}
 	if k%17 == 16 { // identical builds
 		new = old.clone()
